@@ -28,6 +28,7 @@ func init() {
 			"I8 every path-tail return of IncludeFilePath is dominated by a comparison of a path byte with '/'. " +
 			"I9 in the string decoder a value other than the escape's own code point reaches the encoder only under an exact surrogate test; I10 the decoder combines surrogate pairs; I11 GetCallable runs CompileTypes (or compiled) before returning a type table; I12 the tokenizer's string rule accepts every JSON escape (the regexp constant evaluated on constant probes). " +
 			"I13 integer->float conversions in the float-literal parser are bounded by 2^53; I14 the type argument of the per-entry conversion in convertToExp depends on the entry's key. " +
+			"I15 StringExp.Value is used in the JSON methods only by quoteString, len and comparisons. " +
 			"NOT decided: equality of values after a round trip (struct/map decisions, float printing, string escapes - the latter are C09's), that the recorded invocation compiles.",
 		Assumptions: commonAssumptions,
 	}
@@ -45,6 +46,7 @@ func runC16(c *an.Ctx) {
 	ruleI12(c)
 	ruleI13(c)
 	ruleI14(c)
+	ruleI15(c)
 	corePath := an.ModPath + pkgCore
 	synPath := an.ModPath + pkgSyntax
 	entryNames := []string{"BuildCallAst", "convertToExp", "BuildDataForAst", "(*InvocationData).BuildCallAst", "(*Fork).writeInvocation", "fixExpressionTypes", "InvocationDataFromSource"}
